@@ -120,14 +120,18 @@ func (r *Router) WrapHTTPHandlers(preHandlers ...func(h http.Handler) http.Handl
 func (r *Router) ServeHTTP(res http.ResponseWriter, req *http.Request) {
 	// get new context
 	ctx := r.ctxPool.Get().(*Context)
+	ctx = verifPoolGet(r, ctx)
 	// init and reset ctx
 	ctx.Init(res, req)
+	verifYield("serve.init")
 
 	// handle HTTP Request
 	r.handleHTTPRequest(ctx)
 
 	// ctx.Reset()
 	// release ctx
+	verifYield("serve.done")
+	ctx = verifPoolPut(r, ctx)
 	r.ctxPool.Put(ctx)
 }
 
@@ -135,6 +139,7 @@ func (r *Router) ServeHTTP(res http.ResponseWriter, req *http.Request) {
 func (r *Router) HandleContext(c *Context) {
 	c.Reset()
 	r.handleHTTPRequest(c)
+	c = verifPoolPut(r, c)
 	r.ctxPool.Put(c)
 }
 
@@ -157,6 +162,7 @@ func (r *Router) handleHTTPRequest(ctx *Context) {
 
 	// matching route
 	route, params, allowed := r.QuickMatch(ctx.Req.Method, path)
+	verifYield("dispatch.matched")
 
 	var handlers HandlersChain
 	if route != nil { // found route
@@ -188,6 +194,7 @@ func (r *Router) handleHTTPRequest(ctx *Context) {
 		handlers = append(r.handlers, handlers...)
 	}
 
+	verifYield("dispatch.chain")
 	ctx.SetHandlers(handlers)
 	ctx.Next() // handle processing
 
@@ -196,5 +203,6 @@ func (r *Router) handleHTTPRequest(ctx *Context) {
 		r.OnError(ctx)
 	}
 
+	verifYield("dispatch.commit")
 	ctx.writer.ensureWriteHeader()
 }
